@@ -93,21 +93,8 @@ def run(ctx):
     ctx.floor("R1", 8)
 
     # ------------------------------------------------------------------ R2
-    te = en.func("total_energy")
-    txt = {norm(st.targets[0]): norm(st.value).replace(" ", "") for st in ast.walk(te) if isinstance(st, ast.Assign)}
-    ia = [c for c in calls_in(te) if callee_attr(c) == "index_add_"]
-    ok = txt.get("Etot") == "Eelec+Enuc" and len(ia) == 1 and [norm(a) for a in ia[0].args] == ["0", "pair_molid", "EnucAB"] and norm(ia[0].func.value) == "Enuc" \
-        and "torch.zeros" in txt.get("Enuc", "")
-    ctx.check(ok, "R2", en, te, "total_energy", "Etot = Eelec + Enuc", "Etot = Eelec + sum over the molecule's pairs of EnucAB", "total_energy assembly changed")
-    rets = [r for r in ast.walk(te) if isinstance(r, ast.Return)]
-    ctx.check(bool(rets) and _tuple_names(rets[0].value) == ["Etot", "Enuc"], "R2", en, te, "total_energy", "return", "total_energy returns (Etot, Enuc)", "total_energy return order changed")
-    hf = en.func("heat_formation")
-    rts = [r for r in ast.walk(hf) if isinstance(r, ast.Return)]
-    vals = sorted(norm(r.value.elts[0]).replace(" ", "") for r in rts)
-    ctx.check(vals == ["Etot-Eiso_sum", "Etot-Eiso_sum+eheat_sum"], "R2", en, hf, "heat_formation", "Hf", "Hf = Etot - sum Eiso (+ sum eheat under the flag)", f"heat_formation returns {vals}")
-    ias = {norm(c.func.value): [norm(a) for a in c.args] for c in calls_in(hf) if callee_attr(c) == "index_add_"}
-    ctx.check(ias.get("Eiso_sum") == ["0", "atom_molid", "Eiso"] and ias.get("eheat_sum") == ["0", "atom_molid", "const.eheat[Z]"], "R2", en, hf, "heat_formation", "index_add_",
-              "atomic terms are summed per molecule through atom_molid", f"heat_formation sums {ias}")
+    from ..assembly import check_energy_functions
+    check_energy_functions(ctx, "R2", which=("total", "heat", "elec"))
     ef = bs.func("Energy.forward")
     g_stmts = [st for st in ast.walk(ef) if isinstance(st, ast.AugAssign) and norm(st.target) == "Etot"]
     exc = [st for st in g_stmts if norm(st.value) == "Eexcited"]
@@ -123,22 +110,6 @@ def run(ctx):
     ee = [st for st in ast.walk(ef) if isinstance(st, ast.Assign) and norm(st.targets[0]) == "Eelec"]
     ctx.check(bool(ee) and norm(ee[0].value) == "elec_energy(P, F, Hcore)", "R2", bs, ee[0] if ee else ef, "Energy.forward", "Eelec", "Eelec is the energy functional of the returned density and Fock matrix",
               f"Eelec = `{norm(ee[0].value) if ee else None}`")
-    elec = en.func("elec_energy")
-    P, F, h = sp.symbols("P F h")
-    closed = [st for st in ast.walk(elec) if isinstance(st, ast.Assign) and norm(st.targets[0]) == "Eelec" and "P[:, 0]" not in norm(st.value)]
-    fn = torch_funcs()
-    fn["torch.sum"] = lambda a, n: a[0]
-    if closed:
-        e = to_sympy(closed[0].value, {"P": P, "F": F, "h": h}, fn)
-        ctx.check(identically(e - sp.Rational(1, 2) * P * (h + F), 0), "R2", en, closed[0], "elec_energy", closed[0], "closed-shell Eelec = 1/2 sum P (h + F)", f"closed-shell electronic energy summand is {e}")
-    opn = [st for st in ast.walk(elec) if isinstance(st, ast.Assign) and norm(st.targets[0]) == "Eelec" and "P[:, 0]" in norm(st.value)]
-    if opn:
-        Pa, Pb, Fa, Fb = sp.symbols("Pa Pb Fa Fb")
-        f2 = dict(fn)
-        f2["[]"] = lambda n, rec: {"P[:, 0]": Pa, "P[:, 1]": Pb, "F[:, 0]": Fa, "F[:, 1]": Fb}[norm(n)]
-        e = to_sympy(opn[0].value, {"h": h}, f2)
-        ctx.check(identically(e - sp.Rational(1, 2) * ((Pa + Pb) * h + Pa * Fa + Pb * Fb), 0), "R2", en, opn[0], "elec_energy", opn[0],
-                  "open-shell Eelec = 1/2 sum [(Pa+Pb) h + Pa Fa + Pb Fb]", f"open-shell electronic energy summand is {e}")
 
     # ------------------------------------------------------------------ R3
     n_gap = 0
@@ -167,7 +138,8 @@ def run(ctx):
                             pos = [norm(t) for t in src[0].targets[0].elts].index(nl)
                             ok = ok and norm(src[0].value.elts[pos]).startswith(f"molecule.nocc{spin}")
                     else:
-                        ok = False
+                        # the index expression is written in place
+                        ok = ok and nl.startswith(f"molecule.nocc{spin}" if spin else "molecule.nocc")
                 ctx.check(ok, "R3", m, st, q, st, f"{q}: `{st.targets[0].id}` = e[nocc] - e[nocc - 1] of one spin block",
                           f"{q}: gap `{short(st, 80)}` is not LUMO - HOMO of the same spin's orbital energies")
     if n_gap < 4:
@@ -176,33 +148,8 @@ def run(ctx):
 
     # ------------------------------------------------------------------ R4
     ef = es.func("Electronic_Structure.forward")
-    qst = [st for st in ast.walk(ef) if isinstance(st, (ast.Assign, ast.AugAssign)) and norm(st.targets[0] if isinstance(st, ast.Assign) else st.target) == "molecule.q"]
-    if len(qst) < 6:
-        raise AnalysisError("charge arms not found")
-    for st in qst:
-        ctrl = [(norm(a).replace(" ", ""), p) for a, p, _ in controlling(es, st)]
-        pm6 = ("molecule.method=='PM6'", True) in ctrl
-        open_shell = ("molecule.dm.dim()==4", True) in ctrl
-        v = st.value
-        if isinstance(st, ast.Assign):
-            ok = isinstance(v, ast.BinOp) and isinstance(v.op, ast.Sub) and norm(v.left) == "molecule.const.tore[molecule.species]" and callee_attr(v.right) == "atomic_charges"
-            call = v.right if ok else None
-        else:
-            ok = isinstance(st.op, ast.Sub) and callee_attr(v) == "atomic_charges"
-            call = v if ok else None
-        if ok:
-            arg = norm(call.args[0])
-            kw = {k.arg: norm(k.value) for k in call.keywords}
-            want_arg = {"molecule.dm[:, 0]", "molecule.dm[:, 1]"} if open_shell else {"molecule.dm"}
-            ok = arg in want_arg and kw.get("n_orbital", "4") == ("9" if pm6 else "4")
-            if open_shell:
-                ok = ok and arg == ("molecule.dm[:, 0]" if isinstance(st, ast.Assign) else "molecule.dm[:, 1]")
-        ctx.check(ok, "R4", es, st, "Electronic_Structure.forward", st, f"charge arm {ctrl}: q = tore[species] - block-diagonal population of the reported density",
-                  f"charge arm under {ctrl} is `{short(st, 80)}`: charges no longer follow from the reported density (wrong spin block / orbital count / sign)")
-    ac = es.func("Electronic_Structure.atomic_charges")
-    rt = [st for st in ast.walk(ac) if isinstance(st, ast.Assign) and norm(st.targets[0]) == "q"]
-    ctx.check(bool(rt) and norm(rt[0].value).replace(" ", "") == "P.diagonal(dim1=1,dim2=2).reshape(n_molecule,n_atom,n_orbital).sum(axis=2)", "R4", es, rt[0] if rt else ac,
-              "Electronic_Structure.atomic_charges", rt[0] if rt else "q", "atomic population = sum of the atom's diagonal density elements", "atomic_charges formula changed")
+    from ..assembly import check_charges_and_dipole
+    check_charges_and_dipole(ctx, "R4")
     dm = [st for st in ast.walk(ef) if isinstance(st, ast.Assign) and norm(st.targets[0]) == "molecule.dm"]
     ctx.check(bool(dm) and norm(dm[0].value) == "P.detach()", "R4", es, dm[0] if dm else ef, "Electronic_Structure.forward", "molecule.dm", "reported density is the density returned by the force driver",
               "molecule.dm is not the returned density")
@@ -219,13 +166,6 @@ def run(ctx):
         ctx.check(ok, "R4", m, dc[0] if dc else f, q, dc[0] if dc else "calc_ground_dipole", f"{q}: dipole is computed from the returned density `{sorted(dens)}`",
                   f"{q}: dipole is computed from `{norm(dc[0].args[1]) if dc else None}` but the density returned (and used for charges) is {sorted(dens)}: dipole and charges describe different densities")
     dp = repo.mod("seqm/seqm_functions/dipole.py")
-    cg = dp.func("calc_ground_dipole")
-    t = {norm(st.targets[0]): norm(st.value).replace(" ", "") for st in ast.walk(cg) if isinstance(st, ast.Assign)}
-    ok = t.get("nuclear_dipole") == "(molecule.const.tore[molecule.species].unsqueeze(-1)*molecule.coordinates).sum(dim=1)" and \
-        t.get("molecule.dipole") == "(electronic_dipole+nuclear_dipole)*to_debye*debye_to_AU" and \
-        t.get("electronic_dipole") == "torch.einsum('bxyn,dbnxy->bd',P_blocks,dipole_diag_blocks)"
-    ctx.check(ok, "R4", dp, cg, "calc_ground_dipole", "dipole assembly", "dipole = sum Z_core r + Tr(P mu) with the same core charges as the atomic charges",
-              f"dipole assembly changed: {t.get('molecule.dipole')}, {t.get('nuclear_dipole')}")
     cm = dp.func("calc_dipole_matrix")
     signs = [st for st in ast.walk(cm) if isinstance(st, ast.Assign) and "diagonal_dipole[" in norm(st.targets[0]) or (isinstance(st, ast.Assign) and norm(st.targets[0]) == "nonH_coord")]
     txts = sorted(norm(s.value).replace(" ", "") for s in signs if isinstance(s.value, ast.UnaryOp) or "coord" in norm(s.value) or norm(s.value) == "-dd")
